@@ -51,9 +51,12 @@ CLAIMS = {
         "Tie to the C runtime: differential — generated programs (ties, zero delay, payload 0..100, library RNG, rs_malloc/realloc/free scripts over several arenas) x "
         "(threads 1..16 incl. > LPs, checkpoint interval, GVT period) — every returning run's per-LP hash-chain digest equals the extracted reference executor. "
         "At quiescence the abstract histories are proved equal to the log of the executable reference executor (C01_quiescent_histories_are_the_reference_log). "
-        "process.c/fossil.c/the queue are additionally tied op by op to an executable worker model (TW/Worker.v) whose state and history-structure invariants are proved for every script; "
-        "the simulation proof worker model -> abstract machine is not mechanised (partial, named in the evidence).",
-   note=TB + "SC atomics at model level; the step from the worker model to the abstract machine rests on the abstract theorem plus differential runs.",
+        "process.c/fossil.c/the queue are tied op by op to an executable worker model (TW/Worker.v) whose state and history-structure invariants are proved for every script, and the "
+        "REFINEMENT worker model -> abstract machine is mechanised (TW/WorkerAbs.v, C01_worker_refines_the_abstract_machine): for every valid program with types below the reserved ones, every checkpoint "
+        "interval and every script of deliveries, late hand-backs and cancellations without GVT announcements, the worker state is related to a reachable abstract state (same grouped histories, "
+        "pool = pending non-notice messages, cancelled identities = flag words 1/3), so process.c's histories are the sequential execution below every bound under which nothing is pending, and at "
+        "quiescence each LP has processed exactly its sequential dispatch sequence (C01_worker_at_quiescence_has_processed_the_sequential_sequence).",
+   note=TB + "SC atomics at model level; the refinement is proved for scripts without GVT announcements (complete histories) and one worker thread hosting all LPs (arbitrary delivery orders): across fossil collections and for the multi-thread code it rests on the abstract theorem plus differential runs.",
    tech="Coq proof (invariants over all schedules of an abstract Time Warp machine + uniqueness of closed sorted histories) + differential runs against the extracted sequential executor"),
  "C03": dict(cat="proof", ref="DESIGN.md §5 C03",
    text="Theorems (Properties_C03.v, axiom-free): in every reachable state of the abstract machine and for every GVT value valid there, the part of an LP's history "
@@ -105,7 +108,8 @@ CLAIMS = {
         "records, metrics; names <= 255 bytes; 64-bit little-endian words). Consistency decided on real files: runs with a statistics file under GVT periods 0/small/very large "
         "(zero, one, many rounds), 1..16 threads, with injected preemptions at the hook after gvt_phase_run (corpus scenario of finding F9): the .bin must decode with the extracted "
         "decoder with nothing left over and re-encode identically, be accepted by the shipped parser, have equal record counts for node and threads, non-decreasing GVTs, cumulative "
-        "undone <= forward, and every per-thread record must equal the hook-trace counts (forward, rollbacks, undone, checkpoints, silent, anti-messages) of its interval.",
+        "undone <= forward, and every per-thread record must equal the hook-trace counts (forward, rollbacks, undone, checkpoints, silent, anti-messages) of its interval; "
+        "shutdown while everything pending sits at virtual time 0 (rounds of value exactly 0.0 completed partly in the main loop, partly in the shutdown code; costly self-rescheduling events): record counts must still agree.",
    note=TB + "timing and memory metrics are checked for presence only; counter accounting is checked against traces, not proved.",
    tech="Coq proof (codec round-trip) + decoding of real output with the extracted decoder + per-interval counter comparison with hook traces"),
  "C12": dict(cat="proof", ref="DESIGN.md §5 C12",
@@ -160,9 +164,15 @@ CLAIMS = {
         "has published, enters B only when nobody is in C/D; the executable replay step is sound and keeps the invariant; data invariant Phi preserved by extraction, insertion, end of event, "
         "reset, rejoin, publish, end of pass; when all have published the minimum published value bounds every queued message and every event in progress. Tie: (a) the phase transitions traced "
         "from gvt_thread_phase_run in cooperatively scheduled runs are replayed, in their exact order, through the extracted step function; (b) monitors on free-running and scheduled runs: values "
-        "per thread never decrease, the k-th value is the same for all threads, nobody extracts below a value it has been told, and the traced accumulator never exceeds a timestamp extracted since its reset.",
-   note=TB + "thread-level protocol only; node-level (MPI) reduction exercised by C02's runs; SC atomics.",
-   tech="Coq proof (inductive invariants of the counter protocol and of the data argument) + exact replay of traced phase transitions + trace monitors"),
+        "per thread never decrease, the k-th value is the same for all threads, nobody extracts below a value it has been told, and the traced accumulator never exceeds a timestamp extracted since its reset. "
+        "NODE LEVEL (TW/GvtNode.v): for any number of ranks and every interleaving of event processing, local and remote sends, deliveries with arbitrary delay and reordering, and protocol steps "
+        "(start, colour flip, contribution of the old colour's send counts to the reduce-scatter, its completion, end of the wait for old-colour messages, publication, min reduction), the result of the min "
+        "reduction is a lower bound of every queued message, every event in progress and every message IN FLIGHT on every rank (C04_node_gvt_is_below_everything_queued_in_progress_and_in_flight), and a rank "
+        "leaves the wait only when no old-colour message addressed to it is in flight. Tie (c): 2..3 ranks x 1 thread under the simulated network: the colour of every remote (anti-)message sent and received, "
+        "every contribution vector, every reduce-scatter result and every end of wait, traced by guarded hooks in gvt.c / gvt.h, are replayed through the extracted step function (sound for the relation): "
+        "each must be enabled and carry the model's numbers.",
+   note=TB + "node-level replay uses synthetic timestamps (the counting and colour protocol is what is replayed; values are covered by the monitors); one worker thread per rank in the node-level replay; SC atomics; MPI collectives modelled as all-contributed => result.",
+   tech="Coq proof (inductive invariants of the thread counter protocol, of the thread data argument and of the node-level two-colour reduction over all interleavings) + exact replay of traced thread phase transitions and node-level reduction steps + trace monitors"),
  "C06": dict(cat="proof", ref="DESIGN.md §5 C06",
    text="Theorems (Properties_C06.v, axiom-free): flag-handshake transition system (sender cancel + deferred insertion; receiver extraction dispatching on the previous word, rollback with "
         "conditional re-insertion; releases) — for every interleaving the word determines where the message is, only 0,1,2,3,5 are observed, no step is enabled on a released buffer (no double free, "
